@@ -24,7 +24,13 @@ import (
 	"github.com/hyperledger/aries-framework-go/component/storageutil/mem"
 	"github.com/hyperledger/aries-framework-go/pkg/crypto/tinkcrypto"
 	"github.com/hyperledger/aries-framework-go/pkg/kms"
+	"github.com/hyperledger/aries-framework-go/component/kmscrypto/doc/util/fingerprint"
+	"github.com/hyperledger/aries-framework-go/component/models/signature/suite"
+	"github.com/hyperledger/aries-framework-go/component/models/signature/suite/ed25519signature2018"
+	"github.com/hyperledger/aries-framework-go/component/models/verifiable"
+	vdrkey "github.com/hyperledger/aries-framework-go/component/vdr/key"
 	mockprovider "github.com/hyperledger/aries-framework-go/pkg/mock/provider"
+	vdrpkg "github.com/hyperledger/aries-framework-go/pkg/vdr"
 	"github.com/hyperledger/aries-framework-go/pkg/wallet"
 	spi "github.com/hyperledger/aries-framework-go/spi/storage"
 )
@@ -69,6 +75,37 @@ func c19Class(err error) string {
 	return "err"
 }
 
+var c19VC []byte
+
+// a credential signed by a did:key issuer (resolvable without any wallet content)
+func c19SignedVC() []byte {
+	if c19VC != nil {
+		return c19VC
+	}
+	pub := c07E.pubs["ed"]
+	didKey, kid := fingerprint.CreateDIDKey(pub)
+	raw := fmt.Sprintf(`{"@context":["https://www.w3.org/2018/credentials/v1"],"id":"http://example.edu/credentials/c19","type":["VerifiableCredential"],"issuer":%q,"issuanceDate":"2020-01-01T19:23:24Z","credentialSubject":{"id":"did:example:s"}}`, didKey)
+	vc, err := verifiable.ParseCredential([]byte(raw), verifiable.WithDisabledProofCheck(), verifiable.WithJSONLDDocumentLoader(c07E.loader))
+	if err != nil {
+		panic(err)
+	}
+	created := time.Date(2020, 1, 2, 0, 0, 0, 0, time.UTC)
+	err = vc.AddLinkedDataProof(&verifiable.LinkedDataProofContext{
+		SignatureType: "Ed25519Signature2018", SignatureRepresentation: verifiable.SignatureProofValue,
+		Suite:              ed25519signature2018.New(suite.WithSigner(suite.NewCryptoSigner(envCrypto, c07E.handles["ed"]))),
+		VerificationMethod: kid, Created: &created,
+	}, c07LDOpt(c07E.loader))
+	if err != nil {
+		panic(err)
+	}
+	b, err := vc.MarshalJSON()
+	if err != nil {
+		panic(err)
+	}
+	c19VC = b
+	return b
+}
+
 func c19Run(input string) string {
 	loader, err := testutil.DocumentLoader()
 	if err != nil {
@@ -82,11 +119,13 @@ func c19Run(input string) string {
 		StorageProviderValue: keepProvider{mem.NewProvider()},
 		DocumentLoaderValue:  loader,
 		CryptoValue:          cr,
+		VDRegistryValue:      vdrpkg.New(vdrpkg.WithVDR(vdrkey.New())),
 	}
 	// session / store managers are process wide: make user names unique per case and per process
 	prefix := fmt.Sprintf("p%dc%d-", os.Getpid(), atomic.AddUint64(&c19Counter, 1))
 	user := func(u string) string { return prefix + u }
 	var tokens []string
+	tokenOwner := map[string]string{}
 	created := map[string]bool{}
 	tok := func(t string) string {
 		if strings.HasPrefix(t, "t") {
@@ -144,6 +183,7 @@ func c19Run(input string) string {
 				o = c19Class(err)
 			} else {
 				tokens = append(tokens, t)
+				tokenOwner[t] = f[1]
 				o = fmt.Sprintf("tok%d", len(tokens)-1)
 			}
 		case "close":
@@ -154,8 +194,26 @@ func c19Run(input string) string {
 			}
 			o = strconv.FormatBool(w.Close())
 		case "expire":
-			time.Sleep(c19ExpireSleep)
+			// enough time passes for every short-lived token to expire - while every token issued so far keeps being
+			// presented to the wallets of the OTHER profiles (all refused): a refused use must not keep a session alive
 			o = "ok"
+			for slice := 0; slice < 6; slice++ {
+				time.Sleep(c19ExpireSleep / 6)
+				for u := range created {
+					w, _ := newWallet(u)
+					if w == nil {
+						continue
+					}
+					for _, t := range tokens {
+						if tokenOwner[t] == u {
+							continue // the token of this very profile: a use would legitimately renew it
+						}
+						if _, err := w.Get(t, wallet.Metadata, "x"); err == nil {
+							o = "foreign-token-accepted-during-expire"
+						}
+					}
+				}
+			}
 		case "add":
 			w, e := newWallet(f[1])
 			if w == nil {
@@ -186,6 +244,10 @@ func c19Run(input string) string {
 			m, err := w.GetAll(tok(f[2]), wallet.Metadata)
 			if err != nil {
 				o = c19Class(err)
+				// the same request narrowed to a collection goes through another code path: it must be refused too
+				if _, err2 := w.GetAll(tok(f[2]), wallet.Metadata, wallet.FilterByCollection("urn:c19:collection")); err2 == nil {
+					o = "by-collection-path-not-guarded"
+				}
 			} else {
 				var ids []string
 				for k := range m {
@@ -213,6 +275,15 @@ func c19Run(input string) string {
 			}
 			_, err := w.CreateKeyPair(tok(f[2]), kms.ED25519Type)
 			o = c19Class(err)
+			if err != nil {
+				// operations that work on data handed in by the caller (no stored content needed) take the token as well
+				if ok, e := w.Verify(tok(f[2]), wallet.WithRawCredentialToVerify(c19SignedVC())); e == nil && ok {
+					o = "verify-raw-not-guarded"
+				}
+				if _, e := w.Derive(tok(f[2]), wallet.FromRawCredential(c19SignedVC()), &wallet.DeriveOptions{Nonce: "n"}); e == nil {
+					o = "derive-raw-not-guarded"
+				}
+			}
 		}
 		outs = append(outs, o)
 	}
@@ -232,6 +303,8 @@ func c19Gen(r *Rng, tier string) []string {
 	}
 	users := []string{"alice", "bob", "carol"}
 	ids := []string{"x", "y"}
+	// "ALICE" is never created: a wallet asked for under another spelling of a user id is another (absent) profile
+	variant := map[string]string{"alice": "ALICE", "bob": "Bob", "carol": "CAROL"}
 	var out []string
 	for i := 0; i < n; i++ {
 		nu := 2 + r.N(2)
@@ -276,6 +349,9 @@ func c19Gen(r *Rng, tier string) []string {
 		for j := 6 + r.N(14); j > 0; j-- {
 			u := users[r.N(nu)]
 			curUser = u
+			if r.N(16) == 0 {
+				u = variant[u] // tokens are still picked as for the properly spelled profile
+			}
 			switch r.N(24) {
 			case 0:
 				ops = append(ops, "create "+u)
@@ -342,5 +418,5 @@ func c19Gen(r *Rng, tier string) []string {
 }
 
 func init() {
-	register("C19", &Prop{Gen: c19Gen, Run: c19Run})
+	register("C19", &Prop{Gen: c19Gen, Run: c19Run, Setup: c07Setup})
 }
